@@ -119,6 +119,7 @@ func snapshot(maxmem int, opts *stack.Opts) (*stack.Snapshot, error) {
 		buf = make([]byte, l)
 	}
 	s, _, err := stack.ScanSnapshot(bytes.NewReader(buf), io.Discard, opts)
+	verifSnapshot(buf, s, err)
 	// That's expected.
 	if err == io.EOF {
 		err = nil
